@@ -1146,6 +1146,12 @@ caption_command(vbi_decoder *vbi, struct caption *cc,
 		case 8:		/* Flash On			001 c10f  010 1000 */
 // not verified
 			ch->attr.flash = TRUE;
+
+			/* 47 CFR 15.119 (h)(1)(i): Like the Mid-Row Codes
+			   Flash On occupies a column, displayed as space. */
+			if (ch->mode)
+				put_char_space(cc, ch);
+
 			return;
 
 		case 1:		/* Backspace			001 c10f  010 0001 */
